@@ -205,7 +205,7 @@ so), then the sub-command: its words are converted, its graph argument is materi
 def stepParse (σ : Int → Rng) (w : World) (t : ToolPhases) (argv : List String) (st : RState) :
     Except Outcome RState :=
   if argv.contains "-T" then .error (.unsupported "-T") else
-  match parseTop (argv.length + 1) (argv.drop 1) {} with
+  match parseTop (argv.length + 1) argv.tail {} with
   | .error o => .error o
   | .ok top =>
     let rng1 : Rng := match t.seedOpt, top.seed with
@@ -330,7 +330,7 @@ def cliRun (σ : Int → Rng) (w : World) (argv : List String) (rng₀ : Rng) : 
 
 /-- the seed option of a command line of the fragment -/
 def seedOf (argv : List String) : Option Int :=
-  match parseTop (argv.length + 1) (argv.drop 1) {} with
+  match parseTop (argv.length + 1) argv.tail {} with
   | .ok top => top.seed
   | .error _ => none
 
